@@ -89,6 +89,8 @@ def pure_desc(rng):
             c["fun"].pop("bad")
     d["options"]["maxfev"] = min(int(d["options"].get("maxfev", 100)), 120)
     d["form"] = int(rng.integers(6))
+    if rng.random() < 0.4:
+        d["args"] = [float(np.round(rng.normal(), 3)), [1.0, 2.0]]     # extra arguments: a scalar and a mutable list
     # ill-defined entries are cleaned up by the solver: it must clean its own copies, not the caller's arrays
     if d.get("bounds") and rng.random() < 0.35:
         side = "lb" if rng.random() < 0.5 else "ub"
@@ -126,6 +128,8 @@ def build(d):
     pb["constraints"] = [LinearConstraint(np.array(c.A, float), np.array(c.lb, float), np.array(c.ub, float)) if isinstance(c, LinearConstraint) else c
                          for c in pb["constraints"]]
     pb["options"] = dict(pb["options"])
+    if d.get("args"):
+        pb["args"] = (d["args"][0], np.array(d["args"][1], float))      # fresh objects for every build
     return pb
 
 
